@@ -862,8 +862,8 @@ func TestVerifC03(t *testing.T) {
 	randPerKind, probesPerKind, maxSteps, maxAdds, probeSteps := 14, 2, 40, 6, 16
 	earlyPerKind := 3
 	if tier == "thorough" {
-		randPerKind, probesPerKind, maxSteps, maxAdds, probeSteps = 150, 12, 90, 10, 30
-		earlyPerKind = 25
+		randPerKind, probesPerKind, maxSteps, maxAdds, probeSteps = 130, 10, 90, 10, 30
+		earlyPerKind = 20
 	}
 	if v, err := strconv.Atoi(os.Getenv("VERIF_C03_RAND")); err == nil && v >= 0 {
 		randPerKind = v
